@@ -253,6 +253,14 @@ func runC14Controlled(c *Ctx, s *C14Spec) {
 			return
 		}
 	}
+	// the oracle compares index-dependent results: the alphabet must have passed through hook H2
+	for k := range s.Clients {
+		for j, op := range s.Clients[k] {
+			if op.Op == "gen" && live[op.T].char != nil && results[k][j].Kind == "ok" && len(tapes[k].CharLists) == 0 {
+				panic(sentCannotDrive)
+			}
+		}
+	}
 	// reference: the same calls, same client tape, on a private copy, alone
 	for k := range s.Clients {
 		priv := buildShared(s.Shared)
